@@ -29,6 +29,9 @@ type funcScope struct {
 
 	// Range of opcodes corresponding to the function.
 	rng DebugRange
+	// converted reports whether code was emitted for the function (rng is
+	// meaningful only then; an unused function is never converted).
+	converted bool
 	// Variables together with it's type in neo-vm.
 	variables []string
 
